@@ -3611,6 +3611,9 @@ impl StaticsContext {
         iface: &Rc<InterfaceDef>,
     ) -> Option<TypeVar> {
         let output_type = iface.get_output_type_by_name(output_type_name).unwrap();
+        // the implementation may not have been analyzed yet: default values are checked together
+        // with the declarations, before the implementations of their file and of later files
+        generate_constraints_iface_impl(self, imp);
         let result = self
             .unifvars
             .get(&Prov::InstantiateInterfaceOutputType(
